@@ -44,7 +44,7 @@ inductive Scalar
   deriving DecidableEq, Repr, Inhabited
 
 /-- Default factories.  `list`/`dict` are the builtin classes, `fnList`/`fnDict` plain
-    zero-argument functions — SQLAlchemy's introspector tells them apart (see `saShapeDefault`). -/
+    zero-argument functions (every introspector must treat them alike). -/
 inductive Factory
   | list | dict | fnList | fnDict
   deriving DecidableEq, Repr, Inhabited
@@ -253,6 +253,8 @@ def dataclassShape (d : Decl) : Except Unsupported Shape :=
   let ini := fs.filter dcInit
   if fs.any (fun f => match f.default with | .factorySelf _ => true | _ => false) then
     .error (.declaration "dataclasses have no factory taking self")
+  else if fs.any (fun f => f.pseudo == .classVar && f.kwOnly) then
+    .error (.declaration "field is a ClassVar but specifies kw_only")
   else if !defaultsTrailing ((ini.filter (fun f => !f.kwOnly)).map (fun f => !f.default.isNone)) then
     .error (.declaration "non-default argument follows default argument")
   else
@@ -430,12 +432,13 @@ def saHasDefault (f : DField) : Bool :=
     | .value .none => false
     | _ => true)
 
-/-- `Column.nullable`: explicit, else not for a primary key, else from `Mapped[Optional[...]]` -/
+/-- `Column.nullable`: explicit, else inferred by the declarative scan from `Mapped[Optional[...]]`
+    (also for a primary key column) -/
 def saNullable (f : DField) : Bool :=
   match f.nullable with
   | .yes => true
   | .no => false
-  | .unset => !f.pk && f.ty.isOptional
+  | .unset => f.ty.isOptional
 
 /-- SQLAlchemy's `PrimaryKeyConstraint._autoincrement_column` for a single-column primary key:
     `autoincrement=True`, or `"auto"` on a numeric column without default / server default / FK. -/
@@ -452,14 +455,17 @@ def saRequired (pks : List DField) (f : DField) : Bool :=
   !(saHasDefault f || saNullable f || f.serverDefault || f.fk || saIsAutoinc pks f)
 
 /-- `_get_default`: scalar → `DefaultValue`; callable → `DefaultFactory` unless `_is_context_sensitive`
-    (the wrapped callable's signature has any parameter: true for the builtin classes `list`, `dict`
-    whose signature is `(iterable=(), /)`), context callables → `NoDefault`. -/
+    (SQLAlchemy did not wrap it, i.e. it takes the execution context) → `NoDefault`.
+    Repaired behaviour (fixes/C17-sqlalchemy-builtin-callable-default.patch): a callable SQLAlchemy
+    calls without arguments is a factory whatever its signature looks like — before the repair
+    `default=list` (signature `(iterable=(), /)`) was reported as `NoDefault` and `default=dict`
+    (no signature) made the introspector raise `ValueError`. -/
 def saShapeDefault (f : DField) : Dflt :=
   if f.ctxDefault then .none else
   match f.default with
   | .value .none => .none
   | .value v => .value v
-  | .factory fa => if fa.isBuiltinClass then .none else .factory fa
+  | .factory fa => .factory fa
   | _ => .none
 
 def saColType (f : DField) : ShapeTy := { ty := f.ty }      -- `_unwrap_mapped_annotation(type_hints[column.name])`
@@ -621,7 +627,7 @@ def absentRes (lit : Scalar → V) (call : Factory → V) (default : Dflt) : Fie
 def fieldRes (ld : Ty → D → Option V) (lit : Scalar → V) (call : Factory → V) (nm : String → Option String)
     (kvs : List (String × D)) (f : InSpec) : FieldRes V :=
   match nm f.id with
-  | none => if f.required then .unskippable else absentRes lit call f.default
+  | none => if f.required then .unskippable else .omitted     -- skipped: never passed, the constructor decides
   | some k =>
     match kvs.lookup k with
     | some d =>
@@ -662,13 +668,23 @@ def loadModel (ld : Ty → D → Option V) (lit : Scalar → V) (call : Factory 
   loadSpecs ld lit call nm s.specs inp
 
 /-- The loaded object, field by field: what the kind's own constructor makes of an argument that
-    was not passed.  Only two kinds ever see one for a canonical declaration: a TypedDict simply
-    lacks the key, a SQLAlchemy instance answers `None` (column defaults act at flush time). -/
-def objectOf (k : Kind) (none_ : V) (m : LogicalModel) (args : List (String × V)) : List (String × Option V) :=
+    was not passed (an optional field that is skipped by the name layout, or one whose shape carries
+    no default).  dataclass / NamedTuple / attrs / pydantic apply the declared default; a TypedDict
+    simply lacks the key; a SQLAlchemy instance answers `None` (column defaults act at flush time). -/
+def objectOf (k : Kind) (lit : Scalar → V) (call : Factory → V) (none_ : V) (m : LogicalModel)
+    (args : List (String × V)) : List (String × Option V) :=
   m.fields.map fun f =>
     match args.lookup f.name with
     | some v => (f.name, some v)
-    | none => (f.name, if k == .sqlalchemy then some none_ else none)
+    | none =>
+      (f.name,
+        match k with
+        | .typedDict => none
+        | .sqlalchemy => some none_
+        | _ => (match f.default with
+            | .value v => some (lit v)
+            | .factory fa => some (call fa)
+            | .none => none))
 
 variable [DecidableEq V]
 
